@@ -846,8 +846,9 @@ class Ops:
             tr.iters[lst.it] = ("all", None, 0, False)
             if default is not None:
                 return default
-            I.may_raise(["StopIteration"], node, "next")
-            return self.unk("next of an empty iterator", node)
+            from .interp import AbsRaise
+
+            raise AbsRaise("StopIteration", node, I.where(node)[1])  # this path: the iterator has nothing to give
         # summary (or inside an abstract loop): some element, or the default when nothing is left
         tr.iters[lst.it] = ("some", None, pos, True)
         e = lst.elem if lst.items is None else (join_all(lst.items[pos:]) if lst.items[pos:] else None)
